@@ -6,12 +6,13 @@ package validation
 // shape, merkle root) and UtxoViewpoint.ApplyTransaction (spend rules).
 
 //verif:property C13
-//verif:bound header: every field of the header, of the parent header and the clock arbitrary (timestamps below 2^50 ms, i.e. before year 37000); mainnet parameters with a federation of two validators whose private keys the harness knows; checkpoint in state Growing, i.e. the federation schedule; the header is signed by the validator of its slot or by the other one
+//verif:bound header: every field of the header, of the parent header and the clock arbitrary (clock below 2^33 s (year 2242: time.Time.UnixNano is defined up to year 2262), timestamps below 2^50 ms); mainnet parameters with a federation of two validators whose private keys the harness knows; checkpoint in state Growing, i.e. the federation schedule; the header is signed by the validator of its slot or by the other one
 //verif:bound spends: a UTXO view with one or two entries of arbitrary type (normal, coinbase, vote), arbitrary creation height and spent flag, or absent; a transaction spending two outputs whose ids may coincide; heights below 2^62
-//verif:bound block: a block of one coinbase transaction with one output of arbitrary amount/asset/program byte and arbitrary merkle root field, at an arbitrary non-reward height (height mod 100 != 1)
+//verif:bound block: a block of one coinbase transaction with one output (original or vote) of arbitrary amount, asset and one-byte program, arbitrary merkle root field, arbitrary height (reward heights included, with an empty reward table in the checkpoint), under a valid header
 //verif:assume the wall clock is a single arbitrary instant during one validation (override of time.Now for the solver; the native replay uses the real clock and places the header timestamp relative to it)
 //verif:assume the checkpoint's timestamp is not after the parent block's timestamp (it is the timestamp of an ancestor)
 //verif:assume ed25519: XPrv.Sign returns arbitrary bytes for the solver and XPub.Verify is an uninterpreted predicate constrained by: a signature verifies under the key that made it and under no other key (real signing and verification in the native replay); SHA3 uninterpreted and collision-free
+//verif:assume bc.Hash.String (protobuf text form, used for a log line only) is cut
 //verif:assume heights below 2^62: no uint64 wrap-around of creation height + pending period
 //verif:outside where in a chain or fork Chain.ProcessBlock runs these checks (orphan handling, reorganisation: goroutines and the store); validator sets elected by votes (sort.Slice over a map, not encodable); reward-height coinbase amounts (hex-keyed map of control programs); blocks with more than the coinbase transaction in ValidateBlock (transaction validity itself is C01/C02)
 //verif:override time.Now -> verifC13Now
@@ -20,6 +21,8 @@ package validation
 //verif:obligation fn=VerifC13Spend args=0;1;2 validate=20
 //verif:obligation fn=VerifC13DoubleSpend args=0 validate=12
 //verif:obligation fn=VerifC13Header args=0 validate=12 mode=int
+//verif:obligation fn=VerifC13Block args=0;1 validate=12 mode=int
+//verif:override (*github.com/bytom/bytom/protocol/bc.Hash).String -> verifC13HashString
 
 import (
 	"time"
@@ -162,7 +165,7 @@ func verifC13Sign(xprv chainkd.XPrv, msg []byte) []byte { return verifBytesN("si
 
 func VerifC13Header(_ int) {
 	verifC13Clock = int64(verifU64("now.sec"))
-	verifAssume(verifC13Clock >= 0 && verifC13Clock < 1<<40)
+	verifAssume(verifC13Clock >= 0 && verifC13Clock < 1<<33)
 	now := uint64(time.Now().UnixNano() / 1e6)
 	prvs := []chainkd.XPrv{chainkd.XPrv(verifC13Unhex(verifC13Prv0)), chainkd.XPrv(verifC13Unhex(verifC13Prv1))}
 	fed := []chainkd.XPub{chainkd.XPub(verifC13Unhex(verifC13Pub0)), chainkd.XPub(verifC13Unhex(verifC13Pub1))}
@@ -230,4 +233,70 @@ func verifC13ValidateTxs(txs []*bc.Tx, block *bc.Block, converter ProgramConvert
 		results[i] = &ValidateTxResult{i: i, gasStatus: gasStatus, err: err}
 	}
 	return results
+}
+
+// log text only
+func verifC13HashString(h *bc.Hash) string { return "" }
+
+// a block holding only its coinbase transaction, under a valid header
+// (outKind 0: original output, 1: vote output)
+func VerifC13Block(outKind int) {
+	verifC13Clock = int64(verifU64("now.sec"))
+	verifAssume(verifC13Clock >= 10 && verifC13Clock < 1<<33)
+	now := uint64(time.Now().UnixNano() / 1e6)
+	prvs := []chainkd.XPrv{chainkd.XPrv(verifC13Unhex(verifC13Prv0)), chainkd.XPrv(verifC13Unhex(verifC13Prv1))}
+	fed := []chainkd.XPub{chainkd.XPub(verifC13Unhex(verifC13Pub0)), chainkd.XPub(verifC13Unhex(verifC13Pub1))}
+	consensus.ActiveNetParams.FederationXpubs = fed
+	interval := consensus.ActiveNetParams.BlockTimeInterval
+
+	height := verifU64("height")
+	verifAssume(height >= 1 && height < 1<<62)
+	parent := &types.BlockHeader{Version: 1, Height: height - 1, Timestamp: now - interval}
+	cp := &state.Checkpoint{Status: state.Growing, Timestamp: now - interval, Rewards: map[string]uint64{}}
+
+	asset := bc.AssetID{V0: verifU64("out.asset"), V1: ^uint64(0), V2: ^uint64(0), V3: ^uint64(0)}
+	amount := verifU64("out.amount")
+	prog := []byte{verifU8("out.prog")}
+	var out *types.TxOutput
+	if outKind == 1 {
+		out = types.NewVoteOutput(asset, amount, prog, make([]byte, 64), nil)
+	} else {
+		out = types.NewOriginalTxOutput(asset, amount, prog, nil)
+	}
+	coinbase := types.NewTx(types.TxData{
+		Version:        1,
+		SerializedSize: 100,
+		Inputs:         []*types.TxInput{types.NewCoinbaseInput([]byte{1, 2, 3})},
+		Outputs:        []*types.TxOutput{out},
+	})
+	root, _ := types.TxMerkleRoot([]*bc.Tx{coinbase.Tx})
+	b := &types.Block{
+		BlockHeader: types.BlockHeader{Version: 1, Height: height, PreviousBlockHash: parent.Hash(), Timestamp: now},
+		Transactions: []*types.Tx{coinbase},
+	}
+	b.TransactionsMerkleRoot = bc.Hash{V0: verifU64("root0"), V1: verifU64("root1"), V2: verifU64("root2"), V3: verifU64("root3")}
+	if verifBool("root.correct") {
+		b.TransactionsMerkleRoot = root
+	}
+	// signed by the validator of the first slot after the checkpoint
+	msg := b.BlockHeader.Hash().Bytes()
+	b.BlockWitness = prvs[0].Sign(msg)
+	verifAssume(fed[0].Verify(msg, b.BlockWitness) && !fed[1].Verify(msg, b.BlockWitness))
+
+	err := ValidateBlock(b, parent, cp, func(prog []byte) ([]byte, error) { return nil, nil })
+
+	verifObserveBool("accepted", err == nil)
+	rewardHeight := height%consensus.ActiveNetParams.BlocksOfEpoch == 1
+	if err == nil {
+		verifAssert(outKind == 0, "coinbase-output-is-original")
+		verifAssert(asset == *consensus.BTMAssetID, "coinbase-output-is-btm")
+		verifAssert(rewardHeight || amount == 0, "no-reward-outside-reward-height")
+		verifAssert(!rewardHeight || amount == 0, "no-reward-without-recorded-rewards")
+		verifAssert(b.TransactionsMerkleRoot == root, "merkle-root-rule")
+		verifReach("VerifC13Block:accepted")
+	} else {
+		ok := outKind == 0 && asset == *consensus.BTMAssetID && amount == 0 && b.TransactionsMerkleRoot == root
+		verifAssert(!ok, "valid-block-accepted")
+		verifReach("VerifC13Block:rejected")
+	}
 }
